@@ -199,4 +199,4 @@ ASSUME = ['Kani 0.68 / CBMC 6.11 / CaDiCaL; rustc nightly-2026-08-21 x86_64 layo
 def main(tier, seed, keep=False):
     from .runner import run_e1
     return run_e1('C20', tier, seed, gen(tier, seed), RULE, BOUNDS, ASSUME, need_stubbing=True, keep=keep,
-                  harness_timeout=400 if tier == 'quick' else 1200, validate_stub=True)
+                  harness_timeout=600 if tier == 'quick' else 1500, validate_stub=True)
